@@ -8,9 +8,9 @@ M = {
     "C29": [
         ("blank context lines dropped but numbered as contiguous", _d,
          "        all_lines = self.source.span_lines(span, prefix_lines)\n",
-         "        all_lines = self.source.span_lines(span, prefix_lines)\n        context = [line for line in all_lines[:prefix_lines] if line.strip()]\n        all_lines = context + all_lines[prefix_lines:]\n        prefix_lines = len(context)\n", "R-C29.5"),
+         "        all_lines = self.source.span_lines(span, prefix_lines)\n        context = [line for line in all_lines[:prefix_lines] if line.strip()]\n        all_lines = context + all_lines[prefix_lines:]\n        prefix_lines = len(context)\n", "R-C29."),
         ("context count no longer clamped at the top of the file", _d,
-         "        prefix_lines = min(prefix_lines, span.start.line - 1)\n", "", "R-C29.5"),
+         "        prefix_lines = min(prefix_lines, span.start.line - 1)\n", "", "R-C29."),
         ("window starts one line late", _s,
          "            span.start.line - prefix_lines - 1 : span.end.line\n", "            span.start.line - prefix_lines : span.end.line\n", "R-C29.4"),
         ("benign: window bounds bound to locals", _s,
